@@ -10,8 +10,8 @@
    (same shape; unpaired stays unpaired; every pair of a strand of `sub` has its
    partner in `sub` and appears re-indexed: no pair lost, none introduced). *)
 From Coq Require Import List NArith Permutation Sorted.
-From DSD Require Import Base.Str Base.Errors Model.ComplexUtils Dyck.Dyck
-  Proofs.Db Proofs.Assoc Proofs.Loops Proofs.LoopsConn Proofs.Split Proofs.SplitTree Proofs.SplitComp.
+From DSD Require Import Base.Str Base.Errors Model.ComplexUtils Model.Loops Dyck.Dyck
+  Proofs.SplitObj Proofs.Db Proofs.Assoc Proofs.Loops Proofs.LoopsConn Proofs.Split Proofs.SplitTree Proofs.SplitComp.
 Import ListNotations.
 
 (* a connected complex is returned unchanged *)
@@ -88,3 +88,28 @@ Theorem C09_split_db_wrapper : forall seq sst d,
             (combine (map (sel stab) idxs) pts) out.
 Proof. exact split_db_spec. Qed.
 Print Assumptions C09_split_db_wrapper.
+
+(* ---- object level with registries (Model/Loops.v: cplx_call, split_history) ---- *)
+
+(* a constructor call made by split() raises SingletonError or what identifiers raised, and changes nothing *)
+Theorem C09_object_call_raises : forall st seq sst name st' k ex,
+  cplx_call st seq sst name = (st', CRaised k ex) ->
+  st' = st /\ (k = eSingleton \/ identifiers seq sst (r_reg st) = Err k).
+Proof. exact cplx_call_raises. Qed.
+Print Assumptions C09_object_call_raises.
+
+(* an object returned, or handed over through SingletonError.existing (which split()
+   yields), is the registered owner of a rotation of the requested component *)
+Theorem C09_object_existing_is_owner : forall st seq sst name st' i,
+  (cplx_call st seq sst name = (st', CReturned i) \/
+   cplx_call st seq sst name = (st', CRaised eSingleton (Some i))) ->
+  st' = st /\ exists k, find_key k (r_reg st) = Some i.
+Proof. exact cplx_call_existing. Qed.
+Print Assumptions C09_object_existing_is_owner.
+
+(* "splitting twice yields identical objects" does NOT hold in every history:
+   the first run can advance ComplexS.ID so that the next automatic name is the
+   name of another live complex (witness replayed on the implementation) *)
+Theorem C09_split_twice_identical_refuted : ~ split_twice_same_full.
+Proof. exact split_twice_same_refuted. Qed.
+Print Assumptions C09_split_twice_identical_refuted.
